@@ -4,13 +4,15 @@ import os
 import vlib, C20_syms
 
 VT = ["g8", "rgb8", "rgb8p", "g16", "rgba8", "bgr8", "g32f", "rgb16p"]
-WITNESS = "0 0 7 1"          # C20_line_bbox_witness: (0,0)->(7,1) emits (6,2)
+WITNESS = "0 0 31 8"         # C20_line_near_witness: (0,0)->(31,8) emits (27,8), 1.03 px from the segment
+OLD_BBOX_WITNESS = "0 0 7 1"  # emitted (6,2) before fix 51ba32c (kept as a regression input)
 GEN_HEADER = "set_option linter.unusedVariables false\n"
 
 def gen_ops(ctx):
     r, th, ops = ctx.rng, ctx.thorough(), []
     # corpus first: the kernel-checked witness, on the real code, through every entry point
-    ops += ["line " + WITNESS, "linex " + WITNESS, "aline g8 " + WITNESS, "line 0 0 0 0", "line 0 0 3 1"]
+    ops += ["line " + WITNESS, "linex " + WITNESS, "line " + OLD_BBOX_WITNESS, "linex " + OLD_BBOX_WITNESS, "aline g8 " + OLD_BBOX_WITNESS,
+            "line 0 0 0 0", "line 0 0 3 1"]
     # --- line: every direction vector of a window, all octants, axis-parallel and diagonal included
     N = 100 if th else 60
     for dx in range(-N, N + 1):
@@ -127,8 +129,8 @@ def run(ctx, ops=None):
                     ctx.broken.append(("assumption", "octant-bound " + o, "point_count()/8 = %d violates 2(n-1)^2-2(n-1)+1 <= r^2" % n))
         # the witness theorem's input must fail on the real code exactly as the theorem says
         wi = ops.index("line " + WITNESS) if ("line " + WITNESS) in ops else None
-        if wi is not None and (verdicts[wi] != "fail bbox" or " 6 2 " not in " " + impl[wi] + " "):
-            ctx.notes.append("C20_line_bbox_witness no longer reproduces on the real code: %s -> %s" % (impl[wi], verdicts[wi]))
+        if wi is not None and (verdicts[wi] != "fail within-one-pixel" or " 27 8 " not in " " + impl[wi] + " "):
+            ctx.notes.append("C20_line_near_witness no longer reproduces on the real code: %s -> %s" % (impl[wi], verdicts[wi]))
             extra["witness_reproduces"] = False
         elif wi is not None: extra["witness_reproduces"] = True
         for i in (0, 1, 2, len(ops) // 4, len(ops) // 2, 3 * len(ops) // 4, len(ops) - 1):
